@@ -1,6 +1,154 @@
-//! (stub) modes of this area are added here; see main.rs for the calling convention.
-use crate::Args;
+//! Token accounting (C13) and wait-group (C14) modes: single-threaded, deterministic histories on
+//! the real `Runner` with one counting waker per pending request.
+//!
+//! tok_run <max_conns> <ops>:  ops (flat):
+//!    1 r   new get_token() future on runner r (0 = original, 1.. = clones created on demand); it gets the next index
+//!    2 i   poll future i (Ready -> its token becomes live)
+//!    3 i   drop the token obtained by future i
+//!    4 i   drop the (pending) future i
+//!  observation per op: [live tokens, ready flag of the polled future (or 2), wake counters of all futures so far...]
+//! wg_run <tokens> <ops>: 1 = drop a token, 2 = (unused), 10+w = poll the shutdown future with a token drop forced into window w
+//!    (1 = before the poll, 2 = between Weak::upgrade and waker registration, 3 = after registration before the temporary
+//!    reference is dropped, 4 = after the poll).  observation per poll: [ready, total wakes, live tokens after]
+use crate::proto::config;
+use crate::{arg, argn, Args};
+use fastcgi_server::async_io::{Runner, Token};
+use std::future::Future;
+use std::pin::Pin;
+use std::sync::atomic::{AtomicUsize, Ordering};
+use std::sync::{Arc, Mutex};
+use std::task::{Context, Poll, Wake, Waker};
 
-pub fn dispatch(_mode: &str, _a: &Args) -> Option<Args> {
-    None
+pub fn dispatch(mode: &str, a: &Args) -> Option<Args> {
+    Some(match mode {
+        "tok_run" => tok_run(a),
+        "wg_run" => wg_run(a),
+        _ => return None,
+    })
+}
+
+struct Count(AtomicUsize);
+impl Wake for Count {
+    fn wake(self: Arc<Self>) {
+        self.0.fetch_add(1, Ordering::SeqCst);
+    }
+    fn wake_by_ref(self: &Arc<Self>) {
+        self.0.fetch_add(1, Ordering::SeqCst);
+    }
+}
+
+type TokFut = Pin<Box<dyn Future<Output = Token>>>;
+
+fn tok_run(a: &Args) -> Args {
+    let maxc = argn(a, 0).max(1) as usize;
+    let ops = arg(a, 1);
+    // runners live in leaked boxes so that the futures may borrow them for 'static
+    let base: &'static Runner = Box::leak(Box::new(config(64, maxc).async_runner()));
+    let mut runners: Vec<&'static Runner> = vec![base];
+    let mut futs: Vec<Option<TokFut>> = Vec::new();
+    let mut toks: Vec<Option<Token>> = Vec::new();
+    let mut counters: Vec<Arc<Count>> = Vec::new();
+    let mut res: Args = Vec::new();
+    let mut i = 0;
+    while i + 1 < ops.len() {
+        let (op, x) = (ops[i], ops[i + 1] as usize);
+        i += 2;
+        let mut ready = 2u128;
+        match op {
+            1 => {
+                while runners.len() <= x {
+                    let c: &'static Runner = Box::leak(Box::new(base.clone()));
+                    runners.push(c);
+                }
+                let r = runners[x];
+                futs.push(Some(Box::pin(r.get_token())));
+                toks.push(None);
+                counters.push(Arc::new(Count(AtomicUsize::new(0))));
+            },
+            2 => {
+                if let Some(Some(f)) = futs.get_mut(x) {
+                    let waker = Waker::from(counters[x].clone());
+                    let mut cx = Context::from_waker(&waker);
+                    match f.as_mut().poll(&mut cx) {
+                        Poll::Ready(t) => {
+                            toks[x] = Some(t);
+                            futs[x] = None;
+                            ready = 1;
+                        },
+                        Poll::Pending => ready = 0,
+                    }
+                }
+            },
+            3 => {
+                if let Some(t) = toks.get_mut(x) {
+                    *t = None;
+                }
+            },
+            4 => {
+                if let Some(f) = futs.get_mut(x) {
+                    *f = None;
+                }
+            },
+            _ => {},
+        }
+        let live = toks.iter().filter(|t| t.is_some()).count() as u128;
+        assert!(live <= maxc as u128, "more live tokens than max_conns");
+        let mut row = vec![live, ready];
+        row.extend(counters.iter().map(|c| c.0.load(Ordering::SeqCst) as u128));
+        res.push(row);
+    }
+    res
+}
+
+fn wg_run(a: &Args) -> Args {
+    let n = argn(a, 0) as usize;
+    let ops = arg(a, 1);
+    let runner = config(64, n.max(1) + 1).async_runner();
+    let counter = Arc::new(Count(AtomicUsize::new(0)));
+    let waker = Waker::from(counter.clone());
+    let mut cx = Context::from_waker(&waker);
+    let tokens: Arc<Mutex<Vec<Token>>> = Arc::new(Mutex::new(Vec::new()));
+    for _ in 0..n {
+        let fut = runner.get_token();
+        futures_util::pin_mut!(fut);
+        match fut.poll(&mut cx) {
+            Poll::Ready(t) => tokens.lock().expect("tokens").push(t),
+            Poll::Pending => panic!("token not available"),
+        }
+    }
+    let mut fut = Box::pin(runner.shutdown());
+    let mut res: Args = Vec::new();
+    for &op in &ops {
+        if op == 1 {
+            tokens.lock().expect("tokens").pop();
+        } else if op >= 10 {
+            let w = op - 10;
+            if w == 1 {
+                tokens.lock().expect("tokens").pop();
+            }
+            if w == 2 || w == 3 {
+                let t2 = tokens.clone();
+                let at = if w == 2 { 1u8 } else { 2u8 };
+                fastcgi_server::async_io::verif_set_wg_hook(Some(Box::new(move |point| {
+                    if point == at {
+                        t2.lock().expect("tokens").pop();
+                    }
+                })));
+            }
+            let r = fut.as_mut().poll(&mut cx);
+            fastcgi_server::async_io::verif_set_wg_hook(None);
+            if w == 4 {
+                tokens.lock().expect("tokens").pop();
+            }
+            res.push(vec![
+                u128::from(r.is_ready()),
+                counter.0.load(Ordering::SeqCst) as u128,
+                tokens.lock().expect("tokens").len() as u128,
+            ]);
+            if r.is_ready() {
+                break;
+            }
+        }
+    }
+    res
 }
